@@ -407,3 +407,326 @@ Section DiscreteLaw.
   Lemma pmf_le_cdf k : pmf k <= cdf k.
   Proof. pose proof (pmf_is_cdf_step k). pose proof (cdf_nonneg (k - 1)). lra. Qed.
 End DiscreteLaw.
+
+(* ------------------------------------------------------------------------- *)
+(* Continuous variables: every event is the stated difference of the cdf F. *)
+Lemma P_single_cont F s r t : r <> Req ->
+  P_written (wsingle (Cont F) s r t) = Ok (if bounded_above s r then F t else 1 - F t).
+Proof. intro H. destruct s, r; try congruence; reflexivity. Qed.
+
+Definition chain_lo (r1 : rel) (a b : Q) : Q := if is_fwd r1 then a else b.
+Definition chain_hi (r1 : rel) (a b : Q) : Q := if is_fwd r1 then b else a.
+
+Lemma P_double_cont F a r1 r2 b : same_dir r1 r2 = true ->
+  P_written (wdouble (Cont F) a r1 r2 b) = Ok (Qmax (F (chain_hi r1 a b) - F (chain_lo r1 a b)) 0).
+Proof. intro H. destruct r1, r2; try discriminate; reflexivity. Qed.
+
+Lemma P_double_cont_ordered F a r1 r2 b :
+  (forall x y, x <= y -> F x <= F y) -> same_dir r1 r2 = true -> chain_lo r1 a b <= chain_hi r1 a b ->
+  exists v, P_written (wdouble (Cont F) a r1 r2 b) = Ok v /\
+            v == F (chain_hi r1 a b) - F (chain_lo r1 a b).
+Proof.
+  intros Hm Hd Hle. rewrite P_double_cont by assumption. eexists; split; [reflexivity|].
+  apply Q.max_l. specialize (Hm _ _ Hle). lra.
+Qed.
+
+Lemma P_point_cont F k : P_written (W1 (TRv (Cont F)) Req (TNum k)) = Raise NoMatchingFunctionSignatureError.
+Proof. reflexivity. Qed.
+
+(* ------------------------------------------------------------------------- *)
+(* An event and its complement sum to 1 — on any variable, by the code paths alone. *)
+Lemma complement_sum X s r t v1 v2 : r <> Req ->
+  P_written (wsingle X s r t) = Ok v1 -> P_written (wsingle X s (negate r) t) = Ok v2 ->
+  v1 + v2 == 1.
+Proof.
+  intros Hr H1 H2.
+  assert (Hn : negate r <> Req) by (destruct r; cbn; congruence).
+  destruct X as [pm cd|F].
+  - rewrite P_single_disc in H1, H2 by assumption.
+    destruct s, r; try congruence; cbn [bounded_above is_fwd is_back negate disc_cut] in H1, H2;
+      injection H1 as <-; injection H2 as <-; ring.
+  - rewrite P_single_cont in H1, H2 by assumption.
+    destruct s, r; try congruence; cbn [bounded_above is_fwd is_back negate] in H1, H2;
+      injection H1 as <-; injection H2 as <-; ring.
+Qed.
+
+(* ------------------------------------------------------------------------- *)
+(* 0 <= P <= 1 whenever masses and cdf values are themselves in [0,1]. *)
+Definition good_rv (X : rvar) : Prop :=
+  match X with
+  | Disc pmf cdf => (forall k, 0 <= pmf k <= 1) /\ (forall k, 0 <= cdf k <= 1)
+  | Cont F => forall x, 0 <= F x <= 1
+  end.
+Definition term_good (t : term) : Prop := match t with TNum _ => True | TRv X => good_rv X end.
+Definition written_good (w : written) : Prop :=
+  match w with
+  | W1 a _ b => term_good a /\ term_good b
+  | W2 a _ m _ b => term_good a /\ term_good m /\ term_good b
+  end.
+
+Lemma max0_bounds p1 p2 : 0 <= p1 <= 1 -> 0 <= p2 <= 1 -> 0 <= Qmax (p2 - p1) 0 <= 1.
+Proof.
+  intros H1 H2. split.
+  - apply Q.le_max_r.
+  - apply Q.max_lub; lra.
+Qed.
+
+Lemma bounds_single X s r t v : good_rv X -> r <> Req ->
+  P_written (wsingle X s r t) = Ok v -> 0 <= v <= 1.
+Proof.
+  intros Hg Hr H. destruct X as [pm cd|F]; cbn [good_rv] in Hg.
+  - rewrite P_single_disc in H by assumption. destruct Hg as [_ Hc].
+    pose proof (Hc (disc_cut s r t)). destruct (bounded_above s r); injection H as <-; lra.
+  - rewrite P_single_cont in H by assumption.
+    pose proof (Hg t). destruct (bounded_above s r); injection H as <-; lra.
+Qed.
+
+Lemma bounds_double X a r1 r2 b v : good_rv X ->
+  P_written (wdouble X a r1 r2 b) = Ok v -> 0 <= v <= 1.
+Proof.
+  intros Hg H. destruct (same_dir r1 r2) eqn:Hd.
+  2:{ unfold wdouble in H. rewrite P_mixed_rejected in H by assumption. discriminate. }
+  destruct X as [pm cd|F]; cbn [good_rv] in Hg.
+  - destruct Hg as [_ Hc].
+    unfold same_dir in Hd. apply orb_true_iff in Hd.
+    destruct Hd as [Hd|Hd]; apply andb_true_iff in Hd; destruct Hd as [H1 H2].
+    + rewrite P_double_disc_fwd in H by assumption. injection H as <-. apply max0_bounds; apply Hc.
+    + rewrite P_double_back in H by assumption.
+      rewrite P_double_disc_fwd in H by (destruct r1, r2; try discriminate; reflexivity).
+      injection H as <-. apply max0_bounds; apply Hc.
+  - rewrite P_double_cont in H by assumption. injection H as <-. apply max0_bounds; apply Hg.
+Qed.
+
+Lemma bounds_point pm cd k v : good_rv (Disc pm cd) ->
+  P_written (W1 (TRv (Disc pm cd)) Req (TNum k)) = Ok v -> 0 <= v <= 1.
+Proof.
+  intros [Hp _] H. cbn -[is_integral Qfloor] in H.
+  destruct (is_integral (NFrac k)); cbn -[Qfloor] in H; [|discriminate].
+  injection H as <-. apply Hp.
+Qed.
+
+(* every written form: whatever P delivers is a probability *)
+Theorem bounds_written w v : written_good w -> P_written w = Ok v -> 0 <= v <= 1.
+Proof.
+  intros Hg H. destruct w as [a r b|a r1 m r2 b].
+  - destruct r.
+    1-4: destruct a as [x|X], b as [y|Y]; cbn [written_good term_good] in Hg; destruct Hg as [Ha Hb];
+      try (cbn in H; discriminate).
+    + apply (bounds_single Y XRight Rlt x v); [assumption|congruence|exact H].
+    + apply (bounds_single X XLeft Rlt y v); [assumption|congruence|exact H].
+    + apply (bounds_single Y XRight Rle x v); [assumption|congruence|exact H].
+    + apply (bounds_single X XLeft Rle y v); [assumption|congruence|exact H].
+    + apply (bounds_single Y XRight Rgt x v); [assumption|congruence|exact H].
+    + apply (bounds_single X XLeft Rgt y v); [assumption|congruence|exact H].
+    + apply (bounds_single Y XRight Rge x v); [assumption|congruence|exact H].
+    + apply (bounds_single X XLeft Rge y v); [assumption|congruence|exact H].
+    + destruct a as [x|[pm cd|F]], b as [y|Y]; try (cbn in H; discriminate).
+      cbn [written_good term_good] in Hg. destruct Hg as [Ha _].
+      eapply bounds_point; eauto.
+  - destruct (same_dir r1 r2) eqn:Hd.
+    2:{ rewrite P_mixed_rejected in H by assumption. discriminate. }
+    destruct a as [x|A], m as [y|Y], b as [z|B];
+      try (destruct r1, r2; try discriminate Hd; cbn in H; discriminate).
+    cbn [written_good term_good] in Hg. destruct Hg as [_ [Hm _]].
+    eapply bounds_double; eauto.
+Qed.
+
+(* ------------------------------------------------------------------------- *)
+(* Parameter validation *)
+Ltac brk :=
+  repeat match goal with
+  | |- context [Qltb ?a ?b] =>
+      let E := fresh "E" in destruct (Qltb a b) eqn:E; [apply Qltb_lt in E | apply Qltb_ge in E]
+  | |- context [Qleb ?a ?b] =>
+      let E := fresh "E" in destruct (Qleb a b) eqn:E; [apply Qleb_le in E | apply Qleb_gt in E]
+  | |- context [(?a <=? ?b)%Z] => destruct (Z.leb_spec a b)
+  | |- context [(?a <? ?b)%Z] => destruct (Z.ltb_spec a b)
+  | |- context [(?a >? ?b)%Z] => rewrite (Z.gtb_ltb a b)
+  | |- context [(?a >=? ?b)%Z] => rewrite (Z.geb_leb a b)
+  | |- context [(?a =? ?b)%Z] => destruct (Z.eqb_spec a b)
+  end; cbn [orb andb negb].
+
+Lemma make_rv_valid l : valid_params l -> make_rv l = Ok l.
+Proof.
+  destruct l; cbn [valid_params make_rv]; intro H; brk; try reflexivity; exfalso;
+    try lia; try lra.
+Qed.
+
+Lemma make_rv_invalid l : ~ valid_params l -> make_rv l = Raise InvalidParameterException.
+Proof.
+  destruct l; cbn [valid_params make_rv]; intro H; brk; try reflexivity; exfalso; apply H;
+    repeat split; try lia; try lra; try assumption.
+Qed.
+
+Lemma make_rv_cases l : (valid_params l /\ make_rv l = Ok l) \/
+                        (~ valid_params l /\ make_rv l = Raise InvalidParameterException).
+Proof.
+  destruct (make_rv l) as [r|e] eqn:E.
+  - left. assert (V : valid_params l).
+    { destruct l; cbn [valid_params make_rv] in *; revert E; brk; intro Hmk; try discriminate;
+        repeat split; try lia; try lra; try assumption. }
+    split; [exact V|]. rewrite <- E. now apply make_rv_valid.
+  - right. assert (V : ~ valid_params l).
+    { intro V. rewrite make_rv_valid in E by assumption. discriminate. }
+    split; [exact V|]. rewrite <- E. now apply make_rv_invalid.
+Qed.
+
+Lemma invalid_rejected_P fo l mk : ~ valid_params l -> P_law fo l mk = Raise InvalidParameterException.
+Proof. intro H. unfold P_law. now rewrite make_rv_invalid. Qed.
+Lemma invalid_rejected_mean l : ~ valid_params l -> mean_of l = Raise InvalidParameterException.
+Proof. intro H. unfold mean_of. now rewrite make_rv_invalid. Qed.
+
+(* ------------------------------------------------------------------------- *)
+(* Bernoulli *)
+Lemma bernoulli_law p : 0 <= p -> p <= 1 -> discrete_law (bernoulli_pmf p) (bernoulli_cdf p) 0.
+Proof.
+  intros H0 H1. split; [|split].
+  - intro k. unfold bernoulli_pmf. brk; lra.
+  - intros k Hk. unfold bernoulli_pmf. brk; try lia. reflexivity.
+  - intro t. unfold bernoulli_cdf. brk.
+    + now rewrite sumZ_empty by lia.
+    + replace t with 0%Z by lia. rewrite sumZ_one. reflexivity.
+    + rewrite (sumZ_split _ 0 1 t) by lia.
+      rewrite (sumZ_last _ 0 1) by lia. replace (1 - 1)%Z with 0%Z by lia. rewrite sumZ_one.
+      rewrite (sumZ_zero _ (1 + 1) t).
+      * change (bernoulli_pmf p 0) with (1 - p). change (bernoulli_pmf p 1) with p. ring.
+      * intros k Hk. unfold bernoulli_pmf. brk; try lia. reflexivity.
+Qed.
+
+Lemma bernoulli_good p : 0 <= p -> p <= 1 -> good_rv (Disc (bernoulli_pmf p) (bernoulli_cdf p)).
+Proof.
+  intros H0 H1. split; intro k.
+  - unfold bernoulli_pmf. brk; lra.
+  - unfold bernoulli_cdf. brk; lra.
+Qed.
+
+(* ------------------------------------------------------------------------- *)
+(* UniformInt *)
+Lemma iZ_pos n : (0 < n)%Z -> 0 < inject_Z n.
+Proof. intro H. change 0 with (inject_Z 0). now rewrite <- Zlt_Qlt. Qed.
+Lemma iZ_nonneg n : (0 <= n)%Z -> 0 <= inject_Z n.
+Proof. intro H. change 0 with (inject_Z 0). now rewrite <- Zle_Qle. Qed.
+
+Lemma uniformint_partial lo hi : (lo <= hi)%Z -> forall t, (lo - 1 <= t)%Z -> (t <= hi)%Z ->
+  sumZ (uniformint_pmf lo hi) lo t == inject_Z (t - lo + 1) / inject_Z (hi - lo + 1).
+Proof.
+  intros Hlh. pose proof (iZ_pos (hi - lo + 1) ltac:(lia)) as HN.
+  apply (sumZ_ind_hi (fun t => (t <= hi)%Z -> sumZ (uniformint_pmf lo hi) lo t
+                                == inject_Z (t - lo + 1) / inject_Z (hi - lo + 1))).
+  - intros _. rewrite sumZ_empty by lia. replace (lo - 1 - lo + 1)%Z with 0%Z by lia.
+    unfold Qdiv. ring.
+  - intros h Hh IH Hhi. rewrite sumZ_last by lia. rewrite IH by lia.
+    unfold uniformint_pmf. brk; try lia.
+    replace (h - lo + 1)%Z with ((h - 1 - lo + 1) + 1)%Z by lia.
+    rewrite (inject_Z_plus (h - 1 - lo + 1) 1). change (inject_Z 1) with 1.
+    field. lra.
+Qed.
+
+Lemma uniformint_law lo hi : (lo <= hi)%Z ->
+  discrete_law (uniformint_pmf lo hi) (uniformint_cdf lo hi) lo.
+Proof.
+  intro Hlh. pose proof (iZ_pos (hi - lo + 1) ltac:(lia)) as HN. split; [|split].
+  - intro k. unfold uniformint_pmf. brk; try lra.
+    apply Qle_shift_div_l; lra.
+  - intros k Hk. unfold uniformint_pmf. brk; try lia; reflexivity.
+  - intro t. unfold uniformint_cdf. brk.
+    + now rewrite sumZ_empty by lia.
+    + rewrite (sumZ_split _ lo hi t) by lia. rewrite uniformint_partial by lia.
+      rewrite (sumZ_zero _ (hi + 1) t).
+      * field. lra.
+      * intros k Hk. unfold uniformint_pmf. brk; try lia; reflexivity.
+    + now rewrite uniformint_partial by lia.
+Qed.
+
+Lemma uniformint_good lo hi : (lo <= hi)%Z -> good_rv (Disc (uniformint_pmf lo hi) (uniformint_cdf lo hi)).
+Proof.
+  intro Hlh. pose proof (iZ_pos (hi - lo + 1) ltac:(lia)) as HN.
+  assert (H1 : 1 <= inject_Z (hi - lo + 1)).
+  { change 1 with (inject_Z 1). rewrite <- Zle_Qle. lia. }
+  split; intro k.
+  - unfold uniformint_pmf. brk; try lra. split.
+    + apply Qle_shift_div_l; lra.
+    + apply Qle_shift_div_r; lra.
+  - unfold uniformint_cdf. brk; try lra. split.
+    + apply Qle_shift_div_l; [lra|]. pose proof (iZ_nonneg (k - lo + 1) ltac:(lia)). lra.
+    + apply Qle_shift_div_r; [lra|]. rewrite Qmult_1_l. rewrite <- Zle_Qle. lia.
+Qed.
+
+(* mean: lo + (hi-lo)/2 = (lo+hi)/2 = Σ k·pmf k *)
+Lemma uniformint_mean_closed lo hi :
+  inject_Z lo + inject_Z (hi - lo) / 2 == (inject_Z lo + inject_Z hi) / 2.
+Proof. unfold Z.sub. rewrite inject_Z_plus, inject_Z_opp. field. Qed.
+
+Lemma uniformint_first_moment lo hi : (lo <= hi)%Z -> forall t, (lo - 1 <= t)%Z -> (t <= hi)%Z ->
+  sumZ (fun k => inject_Z k * uniformint_pmf lo hi k) lo t
+  == (inject_Z t - inject_Z lo + 1) * (inject_Z lo + inject_Z t) / (2 * inject_Z (hi - lo + 1)).
+Proof.
+  intros Hlh. pose proof (iZ_pos (hi - lo + 1) ltac:(lia)) as HN.
+  apply (sumZ_ind_hi (fun t => (t <= hi)%Z ->
+     sumZ (fun k => inject_Z k * uniformint_pmf lo hi k) lo t
+     == (inject_Z t - inject_Z lo + 1) * (inject_Z lo + inject_Z t) / (2 * inject_Z (hi - lo + 1)))).
+  - intros _. rewrite sumZ_empty by lia. rewrite (iZ_minus lo 1).
+    change (inject_Z 1) with 1. field. lra.
+  - intros h Hh IH Hhi. rewrite sumZ_last by lia. rewrite IH by lia.
+    unfold uniformint_pmf. brk; try lia.
+    rewrite (iZ_minus h 1). change (inject_Z 1) with 1.
+    field. lra.
+Qed.
+
+Lemma uniformint_mean_is_expectation lo hi : (lo <= hi)%Z ->
+  exists m, mean_of (UniformInt lo hi) = Ok m /\
+            m == (inject_Z lo + inject_Z hi) / 2 /\
+            m == sumZ (fun k => inject_Z k * uniformint_pmf lo hi k) lo hi.
+Proof.
+  intro Hlh. pose proof (iZ_pos (hi - lo + 1) ltac:(lia)) as HN.
+  unfold mean_of. rewrite make_rv_valid by exact Hlh. cbn [bind mean].
+  eexists; split; [reflexivity|]. split; [apply uniformint_mean_closed|].
+  rewrite uniformint_first_moment by lia. rewrite uniformint_mean_closed.
+  assert (E : inject_Z (hi - lo + 1) == inject_Z hi - inject_Z lo + 1).
+  { rewrite inject_Z_plus, iZ_minus. reflexivity. }
+  rewrite E in *. field. lra.
+Qed.
+
+(* ------------------------------------------------------------------------- *)
+(* Geometric *)
+Lemma Qpower_succ q n : (0 <= n)%Z -> q ^ (n + 1) == q ^ n * q.
+Proof. intro H. rewrite Qpower_plus' by lia. reflexivity. Qed.
+
+Lemma Qpower_le1 q n : 0 <= q -> q <= 1 -> (0 <= n)%Z -> q ^ n <= 1.
+Proof.
+  intros H0 H1 Hn. replace n with (Z.of_nat (Z.to_nat n)) by lia.
+  induction (Z.to_nat n) as [|m IH]; [cbn; lra|].
+  rewrite Nat2Z.inj_succ. unfold Z.succ. rewrite Qpower_succ by lia.
+  assert (0 <= q ^ Z.of_nat m) by now apply Qpower_0_le. nra.
+Qed.
+
+Lemma geometric_sum_n p n : sum_n (geometric_pmf p) 1 n == 1 - (1 - p) ^ Z.of_nat n.
+Proof.
+  induction n as [|n IH]; [cbn; ring|].
+  rewrite sum_n_S, IH. unfold geometric_pmf. brk; [lia|].
+  replace (1 + Z.of_nat n - 1)%Z with (Z.of_nat n) by lia.
+  rewrite Nat2Z.inj_succ. unfold Z.succ. rewrite Qpower_succ by lia. ring.
+Qed.
+
+Lemma geometric_law p : 0 <= p -> p <= 1 -> discrete_law (geometric_pmf p) (geometric_cdf p) 1.
+Proof.
+  intros H0 H1. split; [|split].
+  - intro k. unfold geometric_pmf. brk; [lra|].
+    apply Qmult_le_0_compat; [apply Qpower_0_le; lra|assumption].
+  - intros k Hk. unfold geometric_pmf. brk; [reflexivity|lia].
+  - intro t. unfold geometric_cdf. brk.
+    + now rewrite sumZ_empty by lia.
+    + unfold sumZ. rewrite geometric_sum_n. replace (Z.of_nat (Z.to_nat (t + 1 - 1))) with t by lia.
+      reflexivity.
+Qed.
+
+Lemma geometric_good p : 0 <= p -> p <= 1 -> good_rv (Disc (geometric_pmf p) (geometric_cdf p)).
+Proof.
+  intros H0 H1. split; intro k.
+  - unfold geometric_pmf. brk; [lra|].
+    assert (0 <= (1 - p) ^ (k - 1)) by (apply Qpower_0_le; lra).
+    assert ((1 - p) ^ (k - 1) <= 1) by (apply Qpower_le1; try lra; lia). nra.
+  - unfold geometric_cdf. brk; [lra|].
+    assert (0 <= (1 - p) ^ k) by (apply Qpower_0_le; lra).
+    assert ((1 - p) ^ k <= 1) by (apply Qpower_le1; try lra; lia). lra.
+Qed.
